@@ -635,15 +635,16 @@ class Sess:
         return {"end": self.haddr(s["end"]), "ps": self.haddr(s["prefixStart"]), "ds": self.haddr(s["dictStart"]),
                 "dl": s["dictLimit"], "ll": s["lowLimit"], "ntu": s["nextToUpdate"], "lvl": s["level"], "dirty": 1 if s["dirty"] else 0,
                 "dctx": did, "h4": md5(raw[:65536]), "h8": md5(raw[65536:]), "raw": raw,
-                "ht": md5(raw), "ct": md5(self.hc[sid].bytes(131072, 131072))}
+                "ht": md5(raw), "ct": md5(self.hc[sid].bytes(131072, 131072)), "fav": 1 if s["favor"] else 0}
     def h_import(self, sid, kind="h"):
         """(re)synchronise the model [kind] with the real context: used after calls that are outside the model"""
         v = self.hview(sid)
         if v["end"] < 0 or v["ps"] < 0 or v["ds"] < 0:
             return False
         tab = v["raw"].hex() if kind == "h" else (v["raw"] + self.hc[sid].bytes(131072, 131072)).hex()
-        a = self.orc.ask(kind + "import", str(sid), str(v["end"]), str(v["ps"]), str(v["ds"]), str(v["dl"]), str(v["ll"]), str(v["ntu"]),
-                         str(v["lvl"]), str(v["dirty"]), tab)
+        args = [str(sid), str(v["end"]), str(v["ps"]), str(v["ds"]), str(v["dl"]), str(v["ll"]), str(v["ntu"]), str(v["lvl"]), str(v["dirty"])]
+        if kind == "o": args.append(str(v["fav"]))
+        a = self.orc.ask(kind + "import", *(args + [tab]))
         if "=" not in a:
             self.fail("harness_error", "stream oracle %simport: %s" % (kind, a[:200]))
         self.hmodel[sid] = kind
@@ -661,7 +662,7 @@ class Sess:
         if not self.orc or op is None:
             return None
         cur = self.hmodel.get(sid) or None
-        if op is False or cur == op:
+        if op is False or cur == op or (cur == "o" and op == "c"):      # the "o" model covers levels 3..12 (chain <-> opt on the same tables)
             if cur:
                 d = self.hview(sid)["dctx"]
                 if d >= 0 and self.hmodel.get(d) != cur:
@@ -690,7 +691,7 @@ class Sess:
         elif consumed is not None and ret > 0 and consumed != m["consumed"]:
             bad = "consumed: model %d, code %d" % (m["consumed"], consumed)
         else:
-            names = ["end", "ps", "ds", "dl", "ll", "ntu", "lvl", "dirty"] + (["ht", "ct"] if "ct" in m else ["h4", "h8"])
+            names = ["end", "ps", "ds", "dl", "ll", "ntu", "lvl", "dirty"] + (["ht", "ct"] if "ct" in m else ["h4", "h8"]) + (["fav"] if "fav" in m else [])
             diff = ["%s: code %s model %s" % (k, c[k], m[k]) for k in names if str(c[k]) != m[k]]
             if (c["dctx"] != -1) != (m["dctx"] == "1"):
                 diff.append("dictCtx!=NULL: code %s model %s" % (c["dctx"] != -1, m["dctx"]))
@@ -702,9 +703,10 @@ class Sess:
                     bad = "%s: code %s model %s" % (k, v, m.get(k))
         self.res["evals"] += 1
         st["hc_model_compared"] += 1
-        if "ct" in m: st["hc_chain_model_compared"] += 1
+        if "fav" in m: st["hc_opt_model_compared"] += 1
+        elif "ct" in m: st["hc_chain_model_compared"] += 1
         if bad:
-            self.fail("corr_fail", "%s model/code disagree after %s: %s" % ("HcChainStream" if "ct" in m else "HcMidStream", opname, bad))
+            self.fail("corr_fail", "%s model/code disagree after %s: %s" % ("HcOptStream" if "fav" in m else "HcChainStream" if "ct" in m else "HcMidStream", opname, bad))
     def hstate(self, sid):
         raw = self.hc[sid].bytes(40, HC_OFF)
         end, ps, dstart = struct.unpack_from("<QQQ", raw, 0)
@@ -750,8 +752,11 @@ class Sess:
         if ready:
             self.ask(ready + "lvl", sid, level); self.hcmp(sid, "LZ4_setCompressionLevel", 0, None)
     def h_favor(self, sid, f):
+        ready = self.h_model_ready(sid, False)
         self.lib.favorDecompressionSpeed(self.hc[sid].p, f)
         self.log.append("favor h%d %d" % (sid, f))
+        if ready == "o":          # the other two models do not keep favorDecSpeed (never read at their levels)
+            self.ask("ofav", sid, 1 if f else 0); self.hcmp(sid, "LZ4_favorDecompressionSpeed", 0, None)
     def h_reset_fast(self, sid, level):
         dirty = self.hstate(sid)["dirty"]
         ready = self.h_model_ready(sid, False)
@@ -826,7 +831,7 @@ class Sess:
         src = self.arena.read(addr, n)
         snap = self.h_snap(sid)
         lvl = self.hstate(sid)["level"]
-        ready = self.h_model_ready(sid, kind_of_level(lvl))
+        ready = self.h_model_ready(sid, model_kind(lvl, n))
         consumed = n
         if destsize:
             sz = c_int(n)
@@ -903,7 +908,7 @@ class Sess:
         dst = Buf(max(cap, 0), fill=0xC3)
         src = self.arena.read(addr, n)
         f = self.lib.compress_HC_extStateHC_fastReset if kind == "fr" else self.lib.compress_HC_extStateHC
-        lk = kind_of_level(level)
+        lk = model_kind(level, n)
         ready = (lk if self.orc is not None else None) if kind == "ext" else self.h_model_ready(sid, lk)
         r = f(self.hc[sid].p, self.arena.ptr(addr), dst.p, n, cap, level)
         out = dst.bytes(r) if 0 < r <= cap else b""
@@ -952,9 +957,17 @@ def size_class(n):
     return "0" if n == 0 else "1-12" if n <= 12 else "<4K" if n < 4096 else "4K" if n <= 4097 else "<64K" if n < 65536 else ">=64K"
 def kind_of_level(l):
     """which extracted model covers the parser of this compression level: "h" = Model.HcMidStream (lz4mid, levels 1-2),
-    "c" = Model.HcChainStream (hash chain, levels 3-9; a level < 1 means LZ4HC_CLEVEL_DEFAULT = 9), None = lz4opt"""
+    "c" = Model.HcChainStream (hash chain, levels 3-9; a level < 1 means LZ4HC_CLEVEL_DEFAULT = 9),
+    "o" = Model.HcOptStream (levels 10-12, and the hash-chain levels once a history has touched 10-12)"""
     if l < 1: l = 9
-    return "h" if l <= 2 else "c" if l <= 9 else None
+    return "h" if l <= 2 else "c" if l <= 9 else "o"
+OPT_MODEL_MAX = 1200
+def model_kind(l, n):
+    """the model a compression call of n bytes at level l is mirrored on; the extracted optimal parser (big integers, up to
+    16384 searches per position at level 12) is too slow for long inputs: those calls are checked by the direct oracles only
+    and the model is re-synchronised from the real context afterwards"""
+    k = kind_of_level(l)
+    return None if (k == "o" and n > OPT_MODEL_MAX) else k
 def lvl_class(l):
     return "mid" if 1 <= l <= 2 else "hc" if 3 <= l <= 9 else "opt" if l >= 10 else "dflt"
 
